@@ -243,13 +243,23 @@ def classify(fn, F, cg=None, exceptions=None):
                     if d is not None and not d.is_param and d.op == "load":
                         a = fn.defn(d.ops[0])
                         fo = field_of_gep(fn.mod, a) if a is not None and not a.is_param and a.op == "getelementptr" else None
-                        if fo:
+                        cell = M.strip(d.ops[0], ("bitcast",))
+                        # the head cell: a struct field, or any pointer defined outside the loop (e.g. a `Node **list` parameter)
+                        outside = a is None or a.is_param or a.block.id not in body
+                        if fo or outside:
                             for bb in body:
                                 for st in fn.blocks[bb].insts:
-                                    if st.op == "store" and M.match(("field", fo[0], fo[1], ANY), st.ops[1], {}) is not None and \
-                                            M.match(("load", ("field", None, None, ("inst", d.id))), st.ops[0], {}) is not None:
+                                    if st.op != "store":
+                                        continue
+                                    same_cell = (fo is not None and M.match(("field", fo[0], fo[1], ANY), st.ops[1], {}) is not None) or \
+                                        (st.op == "store" and M.strip(st.ops[1], ("bitcast",)) == cell)
+                                    if st.op == "store" and same_cell and all(fn.dominates(bb, l) for l in lp["latches"]) and \
+                                            (M.match(("load", ("field", None, None, ("inst", d.id))), st.ops[0], {}) is not None or
+                                             any(M.match(("load", ("field", None, None, ("inst", d2.id))), st.ops[0], {}) is not None
+                                                 for bb2 in body for d2 in fn.blocks[bb2].insts if d2.op == "load" and M.equiv(("v", d2.id), ("v", d.id)))):
                                         li.cls = "D"
-                                        li.witness = "list head %s.%s is replaced by its successor each iteration; exit when it is NULL (acyclic list)" % fo
+                                        li.witness = "list head %s is replaced by its successor on every iteration; exit when it is NULL (acyclic list)" % (
+                                            "%s.%s" % fo if fo else "cell *%s" % (fn.var_name(cell[1]) if cell[0] == "v" else "?"))
         if li.cls:
             continue
         # ---------------- nested / monotone induction, scans, memory-carried counters ----------------
